@@ -100,6 +100,21 @@ class Scratch:
             raise Inconclusive("native driver answered %d of %d requests" % (len(out), len(inputs)))
         return out
 
+    def run_native_history(self, expr, paths, profile="debug"):
+        """one compiled value rendered for each path in turn -> list of programs (None when the expression does not compile)"""
+        exe = self.native(profile)
+        line = " ".join("x" + t.encode("utf-8").hex() for t in [expr] + list(paths)) + "\n"
+        r = subprocess.run([exe], input=line, capture_output=True, text=True, timeout=600)
+        if r.returncode != 0:
+            raise Inconclusive("native driver crashed: rc=%s %s" % (r.returncode, r.stderr[-2000:]))
+        d = {}
+        for kv in r.stdout.splitlines()[0].split():
+            k, _, v = kv.partition("=")
+            d[k] = bytes.fromhex(v).decode("utf-8", "replace")
+        if "scheme" not in d:
+            return None
+        return [d["scheme"]] + [d["hist%d" % i] for i in range(1, len(paths)) if "hist%d" % i in d]
+
     def run_native_trees(self, sexprs, profile="debug", mdt=None):
         """tree requests (see native/verif_driver.rs): list of s-expression strings -> list of dict"""
         exe = self.native(profile)
